@@ -67,7 +67,10 @@ func runC08(r *an.Run) {
 				sf := p.Func(lw + "LightningChannel." + name)
 				app := sf.Calls(an.CalleeIs(lw+"updateLog.appendUpdate"), false)
 				if need(o, sf, "appendUpdate", app, 1) {
-					guarded(o, sf, app[0], an.Cmp(an.FieldPath(nil, "RHash"), an.EQ, an.CallTo("crypto/sha256.Sum256", nil), "htlc.RHash == sha256(preimage)"))
+					// the hash compared is the one of the HTLC found in the log under the
+					// given index, the preimage hashed is this call's
+					logHtlc := canonTerm(`^\$recv\.updateLogs\.(Local|Remote)\.lookupHtlc\(\$p1\)\.RHash$`)
+					guarded(o, sf, app[0], an.Cmp(logHtlc, an.EQ, an.CallTo("crypto/sha256.Sum256", nil, canonTerm(`^\$p0(\[:\])?$`)), "lookupHtlc(htlcIndex).RHash == sha256(preimage)"))
 				}
 			}
 		})
